@@ -41,7 +41,7 @@ theorem realPrim_ok (md : ℝ → ℝ → ℝ) (eu : Nat → Nat → ℝ → ℝ
       constructor
       · intro h hx; exact h (by rw [hx, mul_zero])
       · intro h; exact mul_ne_zero (ne_of_gt hc) h
-    show @decide (c * x ≠ 0) _ = @decide (x ≠ 0) _
+    simp only [realPrim]
     exact decide_eq_decide.mpr this
 
 /-- non-vacuity: the (post-fix) `sigmavMid_com` expression over ℝ with `Real.sqrt`, `BoxSize = 2`,
@@ -349,7 +349,7 @@ example (md eu) :
   have l3 : lookup Loaders.table "sigmavMin_com" = some Loaders.ld_sigmavMin_com := by decide +kernel
   rw [denote_succ _ _ _ _ _ _ _ _ _ _ l1, denote_succ _ _ _ _ _ _ _ _ _ _ l2, denote_succ _ _ _ _ _ _ _ _ _ _ l3]
   simp only [Loaders.ld_sigmav3d_com, Loaders.ld_sigmavMaj_com, Loaders.ld_sigmavMin_com, eval, r]
-  simp (decide := true) only [if_true, if_false, ite_true, ite_false]
+  simp (decide := true) only [if_true, if_false]
   norm_num
 
 end AbacusVerif.Units
